@@ -272,7 +272,7 @@ let run_script pac do_simp fuel f s =
 (** val atomic : bool **)
 
 let atomic =
-  false
+  true
 
 (** val lookahead_polls : bool **)
 
@@ -282,4 +282,4 @@ let lookahead_polls =
 (** val poll_after_conflict : bool **)
 
 let poll_after_conflict =
-  true
+  false
